@@ -2,6 +2,7 @@ import Driver.Json
 import Model.Core.Topo
 import Model.Core.Fast
 import Model.Sim.PySim
+import Model.Sim.FastRun
 /-! `sim` command: run the Spec model or the PySim impl model on a serialized block. -/
 open Lean
 namespace Pyrtl.Drv
@@ -146,7 +147,9 @@ def cmdSim (j : Json) : Except String Json := do
       let regArr := regTable (nextRegs b env st)
       st := { regs := arrEnv regArr, mems := applyWrites env (writeNets b) st.mems }
     finalMem := st.mems
-  else if model == "pysim" then
+  else if model == "pysim" || model == "fastsim" then
+    -- the same step skeleton (`FastSim.stepWith`) over Simulation's or FastSimulation's net function
+    let nf : State → Net → List Nat → Nat := if model == "fastsim" then FastSim.netFun b else PySim.netFun b
     let wr := r.wrOrder.getD (writeNets b)
     let mut s := PySim.init b regFn memFn r.dflt
     let valArr0 := mkArr nw s.value
@@ -157,7 +160,7 @@ def cmdSim (j : Json) : Except String Json := do
                                else if PySim.isInput b i then inp i else s.value i
       let baseArr := mkArr nw v2
       let base := arrEnv baseArr
-      let m := Fast.evalSeq (PySim.netFun b ⟨s.regvalue, s.mem⟩) base order {}
+      let m := Fast.evalSeq (nf ⟨s.regvalue, s.mem⟩) base order {}
       let envArr := mkArr nw (Fast.look m base)
       let env := arrEnv envArr
       if romFaults b env then fault := true
